@@ -349,19 +349,33 @@ def check_emit_convert(ctx, R):
     R.ob('EMIT-CONVERT', con, 'asynchronous-branch', bad is None and n > 0,
          'on the asynchronous branch with a loop, emit() does not return one awaitable built from the _emit result',
          ctx.where(fn, fn.node.lineno), fmt_path(bad) if bad else None, n)
-    # blocking branch: a nested coroutine awaits gather(*_emit) and is handed to sync()
-    nested = [f for f in ctx.nested_funcs_of(fn) if f.is_coro]
-    ok_nested = False
-    for nf in nested:
+    # blocking branch: a coroutine (nested function or method of the node) awaits gather(*_emit) and is handed to sync()
+    nested = {f.name: f for f in ctx.nested_funcs_of(fn) if f.is_coro}
+    targets = []
+    for n in own_nodes(fn.node):
+        if isinstance(n, ast.Call) and _call_name(n) == 'sync' and len(n.args) >= 2 and src(n.args[0]) == 'self.loop':
+            a1 = n.args[1]
+            if isinstance(a1, ast.Name) and a1.id in nested:
+                targets.append(nested[a1.id])
+            elif isinstance(a1, ast.Attribute) and isinstance(a1.value, ast.Name) and a1.value.id == 'self':
+                m_ = M.stream.find(a1.attr)
+                if m_ is not None and m_.is_coro:
+                    targets.append(m_)
+    handed = bool(targets)
+    ok_nested = bool(targets)
+    for nf in targets:
+        good = False
         for st, status in ctx.paths(nf, M.stream):
             evs = st.events
             ems = [e for e in evs if e.kind == 'EM']
+            if is_failure(evs, status):
+                continue
             if ems and any(e.kind == 'SUS' and ('emit@%d' % ems[0].line) in (e.b or ()) for e in evs):
-                rets = [e for e in evs if e.kind == 'RETURN']
-                ok_nested = True
-    handed = any(isinstance(n, ast.Call) and _call_name(n) == 'sync' and len(n.args) >= 2 and
-                 isinstance(n.args[1], ast.Name) and n.args[1].id in {f.name for f in nested}
-                 and src(n.args[0]) == 'self.loop' for n in own_nodes(fn.node))
+                good = True
+            else:
+                good = False
+                break
+        ok_nested = ok_nested and good
     R.ob('EMIT-CONVERT', con, 'blocking-branch', ok_nested and handed,
          'the blocking branch does not run a coroutine that awaits the _emit result through sync(self.loop, ...)',
          ctx.where(fn, fn.node.lineno))
